@@ -268,31 +268,36 @@ Definition sync_rollback (backend : chain) (hdr : headers) (w : wallet) : result
   end.
 
 (** [catchUpHashes] (RescanProgress / RescanFinished): SetSyncedTo for every
-    height above the synced one up to [height], inside one Update. *)
-Fixpoint catch_up_from (n : nat) (backend : chain) (hdr : headers) (i : Z) (w : wallet) : option wallet :=
-  match n with
-  | O => Some w
-  | S n' =>
-    match chain_at backend i with
+    height above the synced one up to [height] (hash from GetBlockHash, time
+    from GetBlockHeader), inside one Update.  [bs] are the backend's blocks
+    at heights [i], [i+1], ... *)
+Fixpoint catch_up_blocks (hdr : headers) (i : Z) (bs : list blk) (w : wallet) : option wallet :=
+  match bs with
+  | [] => Some w
+  | b :: rest =>
+    match hdr !! bh b with
     | None => None
-    | Some b =>
-      match hdr !! bh b with
+    | Some t =>
+      match put_synced_to {| m_height := i; m_hash := bh b; m_time := t |} w with
       | None => None
-      | Some t =>
-        match put_synced_to {| m_height := i; m_hash := bh b; m_time := t |} w with
-        | None => None
-        | Some w' => catch_up_from n' backend hdr (i + 1) w'
-        end
+      | Some w' => catch_up_blocks hdr (i + 1) rest w'
       end
     end
   end.
 
 Definition catch_up (backend : chain) (hdr : headers) (height : Z) (w : wallet) : result :=
   let s := m_height (synced w) in
-  match catch_up_from (Z.to_nat (height - s)) backend hdr (s + 1) w with
-  | Some w' => ok w'
-  | None => fail w
-  end.
+  if height <=? s then ok w                        (* empty loop *)
+  else if s + 1 <? 0 then fail w                   (* GetBlockHash of a negative height *)
+  else
+    let n := Z.to_nat (height - s) in
+    let bs := take n (drop (Z.to_nat (s + 1)) backend) in
+    if (length bs <? n)%nat then fail w            (* GetBlockHash beyond the backend's tip *)
+    else
+      match catch_up_blocks hdr (s + 1) bs w with
+      | Some w' => ok w'
+      | None => fail w
+      end.
 
 (** RescanFinished: catch up, then mark the wallet synced (whatever the
     catch-up returned). *)
